@@ -205,14 +205,14 @@ def run(ctx) -> None:
     for st in stores:
         key = unparse(st.targets[0].slice).replace('"', "'")  # type: ignore[attr-defined]
         sl = f"{ap.module.relpath}:{st.lineno}"
-        if key == "prefix + '_' + original_cond_name":
+        if key in ("prefix + '_' + original_cond_name", "f'{prefix}_{original_cond_name}'"):
             r.ok("C11.R5", ap.qual, f"detections[{key}]", sl)
         else:
             r.violation("C11.R5", ap.qual, unparse(st), "filter detections are not stored under prefix + '_' + name (the rewritten condition would not find them)", sl)
     for c, k, v in bulk:
         sl = f"{ap.module.relpath}:{c.lineno}"
         kt = unparse(k).replace('"', "'")
-        if kt.startswith("prefix + '_' + "):
+        if kt.startswith("prefix + '_' + ") or kt.startswith("f'{prefix}_{"):
             r.ok("C11.R5", ap.qual, f"detections.update({{{kt}: …}})", sl)
         else:
             r.violation("C11.R5", ap.qual, short(c, 120), "filter detections are not stored under prefix + '_' + name (the rewritten condition would not find them)", sl)
